@@ -135,6 +135,41 @@ UNITS += [
 """),
 ]
 
+UNITS += [
+    Unit(name="kf_generate", file=KF, anchor="pub fn generate(", within="impl KeyFile {", ret_name="r", **WK,
+         functions=["repofile::keyfile::KeyFile::generate"],
+         rewrites=[R_MAPERR,
+                   Rw("passwd: &impl AsRef<[u8]>", "passwd: &PasswdB", sig=True, why="password bytes -> ghost byte sequence"),
+                   Rw("MasterKey::from_key(key)", "vmasterkey_from_key(key)", why="MasterKey -> stub carrying the key"),
+                   Rw("Params::RECOMMENDED", "ParamsR::recommended()", why="scrypt::Params -> stub"),
+                   Rw("let mut salt = vec![0; 64];", "let mut salt = vzeroed64();", why="vec![0; 64] -> stub"),
+                   Rw("rng().fill_bytes(&mut salt);", "vrng_fill_salt(&mut salt);", why="random salt: any bytes"),
+                   Rw("let mut key = [0; 64];", "let mut key = [0u8; 64];", why="literal type made explicit"),
+                   Rw("scrypt::scrypt(", "vscrypt(", why="scrypt -> uninterpreted SCRYPT(password, salt, params)"),
+                   Rw("Key::from_slice(&key)", "vkey_from_array(&key)", why="Key::from_slice -> uninterpreted KEY_OF"),
+                   Rw("serde_json::to_vec(&masterkey)", "vmasterkey_to_json(&masterkey)", why="serde_json serialisation of the master key -> stub (inverse of the parse: ASSUMED)"),
+                   Rw('            hostname,\n            username,\n            kdf: "scrypt".to_string(),\n', "\n\n\n", why="fields without influence on the wrapped key dropped (the stub struct has the five fields the key derivation reads)"),
+                   Rw("            created: with_created.then(Zoned::now),\n", "\n", why="creation time dropped (see above)"),
+                   Rw("2_u32.pow(u32::from(params.log_n()))", "vpow2(params.log_n())", why="2^log_n -> stub whose inverse is log_2 (ASSUMED)"),
+         ],
+         contract="""
+    ensures
+        // ROUND TRIP with key_from_password (unit kf_key_from_password): the key file just generated is opened by the same
+        // password and yields the same master key
+        /*@generated_key_file_opens_with_its_password*/ r matches Ok(kf) ==> kf.data@.len() >= 16 && ({
+            let w = wrapping_key(kf, passwd.bytes@);
+            AEAD_OK(w, kf.data@.subrange(0, 16), kf.data@.subrange(16, kf.data@.len() as int))
+            && MK_PARSE(PT(w, kf.data@.subrange(0, 16), kf.data@.subrange(16, kf.data@.len() as int))) == key.0
+        }),
+""",
+         hints=[("after", "let data = key.encrypt_data(&json_byte_vec)?;", """        proof {
+            let n = data@.subrange(0, 16); let d = json_byte_vec@;
+            axiom_aead_correct(key.0, n, d);
+            assert(data@.subrange(16, data@.len() as int) =~= data@.subrange(16, 16 + d.len() as int) + data@.subrange(16 + d.len() as int, data@.len() as int));
+        }""")],
+         ),
+]
+
 M = "backend::decrypt::verif_kani::"
 # reading a pack's header back (repair index) must reject a pack whose size does not fit its header: the unit lives in C08's
 # spec and is verified as part of this check as well (a stored file that was lengthened or shortened is detected)
@@ -154,7 +189,7 @@ KANI_ASSUMPTIONS = [
     "store = recording mock backend with symbolic per-operation failure",
 ]
 META = {"not_covered": [
-    "the ciphers themselves (AES-CTR, Poly1305), scrypt / key files, passwords, key add/remove histories",
+    "the ciphers themselves (AES-CTR, Poly1305: uninterpreted, AEAD correctness ASSUMED for the generate/open round trip), scrypt, serde of key files, key add/remove histories",
     "'no plaintext in storage' as a statement about all writers (only hash_write_full and the packer hand-over under C08)",
     "compressing writers (zstd FFI); the decoder is an arbitrary function in the compressed-read harness",
 ]}
